@@ -43,6 +43,23 @@ def flags_for(strategy, backend):
     return f
 
 
+# all C19 builds live in ONE directory under the cache whose mtime is refreshed on every
+# build, so vlib.prune_cache (newest-N directories) of concurrently running checks keeps it
+C19_CACHE = os.path.join(vlib.CACHE, "c19")
+
+
+def _touch_cache():
+    os.makedirs(C19_CACHE, exist_ok=True)
+    os.utime(C19_CACHE)
+
+
+def _prune_own(keep):
+    ds = [os.path.join(C19_CACHE, d) for d in os.listdir(C19_CACHE) if d.startswith("ctx_") and ".tmp" not in d]
+    ds.sort(key=os.path.getmtime, reverse=True)
+    for d in ds[keep:]:
+        shutil.rmtree(d, ignore_errors=True)
+
+
 def make_build(strategy, backend):
     def build():
         src = os.path.join(vlib.REPO, "src", "fiber_context.c")
@@ -51,9 +68,10 @@ def make_build(strategy, backend):
         files = [src, hsrc] + [os.path.join(inc, n) for n in sorted(os.listdir(inc)) if n.endswith(".h")]
         fl = flags_for(strategy, backend)
         key = vlib.hash_files(files, extra=repr(("ctx", strategy, backend, fl, RENAMES)))
-        out = os.path.join(vlib.CACHE, "ctx_%s_%s_%s" % (strategy, backend, key))
+        out = os.path.join(C19_CACHE, "ctx_%s_%s_%s" % (strategy, backend, key))
         exe = os.path.join(out, "ctx")
         with vlib.FileLock("build_ctx_%s_%s" % (strategy, backend)):
+            _touch_cache()
             if os.path.exists(exe):
                 os.utime(out)
                 return exe
@@ -74,6 +92,7 @@ def make_build(strategy, backend):
                     raise vlib.BuildError("compile failed: %s\n%s" % (" ".join(c), r.stdout[-3000:]))
             shutil.rmtree(out, ignore_errors=True)
             os.rename(tmp, out)
+            _prune_own(keep=18)
             return exe
     return build
 
@@ -81,7 +100,8 @@ def make_build(strategy, backend):
 def build_translator_report():
     """a tiny executable whose 'run' is: re-extract from the current tree and write what was
     extracted into the log (so the evidence file shows it), status OK / EXTRACT_ERROR"""
-    out = os.path.join(vlib.CACHE, "ctx_translator")
+    _touch_cache()
+    out = os.path.join(C19_CACHE, "translator")
     os.makedirs(out, exist_ok=True)
     exe = os.path.join(out, "report.py")
     body = '''#!/usr/bin/env python3
